@@ -1,0 +1,12 @@
+//go:build verif
+
+package skiplist
+
+import "math/rand"
+
+// VerifSetRand replaces the source of tower heights (verification builds only).
+// Tower heights enter Size(), so a harness that wants reproducible memtable
+// rotation seeds every fresh skiplist itself.
+func (s *SkipList) VerifSetRand(r *rand.Rand) {
+	s.rand = r
+}
